@@ -1,0 +1,10 @@
+//go:build verif
+
+package common
+
+// Comment-only file: it is compiled only with -tags verif and contains no code.
+
+// StatusFromString is a deterministic function of its argument.
+//@ func StatusFromString
+//@   props C12
+//@   purefn
